@@ -47,6 +47,20 @@ def translate(repo):
     # local re-raise conditions stay as they were
     cond = [u(x) for x in hb if isinstance(x, ast.If)]
     items.append(shape("_dispatch_request.except_ifs", "\n".join(cond)))
+    marks = ["if t is %s and self._config['propagate_%s_locally']:\n    raise" % (c, c) for c in ("SystemExit", "KeyboardInterrupt")]
+    raises = [c for c in cond if "raise" in c]
+    if sorted(raises) != sorted(m for m in marks if m in cond):
+        raise Unrecognised("_dispatch_request: a re-raise other than the two configured ones")
+    items.append(typed("reraises_marked", "bool", coq_bool(all(m in cond for m in marks))))
+    dc = find_assign(tree, "DEFAULT_CONFIG")
+    if not (isinstance(dc, ast.Call) and u(dc.func) == "dict"):
+        raise Unrecognised("DEFAULT_CONFIG")
+    kw = {k.arg: k.value for k in dc.keywords}
+    for c in ("SystemExit", "KeyboardInterrupt"):
+        v = kw.get("propagate_%s_locally" % c)
+        if not (isinstance(v, ast.Constant) and isinstance(v.value, bool)):
+            raise Unrecognised("DEFAULT_CONFIG propagate_%s_locally" % c)
+        items.append(typed("default_marks_%s" % c, "bool", coq_bool(v.value)))
     # the else branch: reply
     eb = t.orelse
     if len(eb) != 1:
